@@ -366,6 +366,14 @@ def run_path(fn, params, prefix, regions, tier, deadline, qtimeout_ms):
     except EngineLimit as e:
         rec["status"] = "inconclusive"
         rec["why"] = "%s: %s" % (type(e).__name__, e)
+        # the path could not be decided symbolically: still take a witness of the path condition reached so far, so
+        # that the native twin evaluates every assertion concretely at one input of this path (witness-level evidence)
+        try:
+            ctx.s.set("timeout", 3000)
+            m = ctx.get_model()
+            rec["witness"] = {"inputs": model_inputs(env, m), "obs": None, "partial": True}
+        except BaseException:
+            pass
     finally:
         sym.CTX = None
     for v in env.failed:
